@@ -503,8 +503,16 @@ def in_domain_op(flat, op):
     if op["op"] == "parse" and op.get("of"):
         return rowgen.in_domain(flat[k], op["of"]["value"], [], op["of"]["targets"]), op["of"]["value"]
     if op["op"] == "sheet" and len(op["rows"]) == 1:
-        ok = rowgen.in_domain(flat[k], op["rows"][0], [], op["targets"]) and rowgen.produces(flat[k], op["rows"][0], [], op["targets"]) > 0
-        return ok, [op["rows"][0]]
+        # one row (several rows of different widths pad each other: known finding of the file leg); the row has
+        # content: since /repo 2426326 every sheet reader drops a row whose cells are all blank (a row without
+        # content is not data in any format), so an instance that writes nothing but blank cells has no
+        # representation in a FILE (in memory parse_row(unparse_row(.)) is checked for it like for any other)
+        row = op["rows"][0]
+        ok = rowgen.in_domain(flat[k], row, [], op["targets"])
+        if ok:
+            un = fresh_exec(flat[k], dict(op="unparse", k=k, value=row, targets=op["targets"], excluded=[]))
+            ok = un[0] == "ok" and any(s.strip() != "" for (_, s) in un[1])
+        return ok, [row]
     return False, None
 
 
